@@ -19,6 +19,15 @@ CLAIMED = {
    note=TRUST + 'Assumed contracts: abstract Bound API (sample returns points inside the bound and cube; contains is a pure function of geometry; '
         'C07), evaluate_likelihood (C03), write*/accessors read-only (C11), resume restores fields (C05). Bounded stand-in (thorough): runtime monitor on 8 scenarios.',
    tech='contract-based deductive verification: AST symbolic execution + loop invariants + z3/cvc5 (self-built VC generator)', ref='7 C01'),
+ 'C03': dict(
+   text='Deductive proof: (1) Sampler.evaluate_likelihood (whole body, scalar/vectorised/pool, array or dictionary prior, any batch size >= 1): returned log_l[j] and blob[j] are the '
+        'likelihood and blob of points[j] in proposal order, blob array has one row per point (binary squeeze semantics incl. the single-row case), the caller\'s array is untouched even '
+        'if the prior writes into its argument (the copy is what the prior receives), n_like grows by the batch size; (2) the alignment invariant (stored log_l/blob is that of the stored '
+        'point of the same row, also for transfer candidates) is preserved by add_bound, add_samples and every branch of run(); (3) posterior(): the weighted arrays built from the shells '
+        'are row-aligned triples and the final transform/normalisation keeps rows together.',
+   note=TRUST + 'User functions are uninterpreted (T, L, Bl), row-wise when vectorised; the prior may clobber the array object it is given; pool.map ordered (C11). "Every evaluated point at '
+        'most once" has no proof: bounded runtime check (duplicate rows) only. posterior() is verified as two mechanically extracted blocks.',
+   tech='contract-based deductive verification incl. user-function theory and representation invariant, z3', ref='7 C03'),
  'C10': dict(
    text='Deductive proof on the real AST of Sampler.sample_shell / add_samples / run: every batch has exactly n_batch rows (loop exit + invariant), every row handed to '
         'evaluate_likelihood lies in the unit cube (call precondition discharged at the call site), the counter grows by exactly n_batch per loop iteration and each '
